@@ -332,4 +332,25 @@ def sweep(ctx, n):
             if not err < 5e-7:
                 fails.append({"key": f"representation:{kind}", "desc": f"whole and parts / alternative class differ (rel. {err:.2g}, field {field})",
                               "replay": {"kind": kind, "field": field, "rel_err": err, "polarization": pol.tolist()}})
+    # ONE large call: a Tetrahedron against the TriangularMesh of its hull at tens of thousands of observers inside the bounding box
+    # (observers x faces far beyond what one chunk of any blocked evaluation would hold) — B, which carries the inside decision
+    import magpylib as _mp
+    with warnings.catch_warnings():
+        warnings.simplefilter("ignore")
+        nps = np.random.default_rng(rng.randrange(2**31))
+        vt = nps.uniform(-1, 1, (4, 3))
+        while abs(np.linalg.det(vt[1:] - vt[0])) < 0.3:
+            vt = nps.uniform(-1, 1, (4, 3))
+        polt = nps.uniform(-1, 1, 3)
+        tet = _mp.magnet.Tetrahedron(vertices=vt, polarization=polt)
+        msh = _mp.magnet.TriangularMesh.from_ConvexHull(points=vt, polarization=polt)
+        nbig = 20000 if getattr(ctx, "tier", "quick") == "quick" else 60000
+        pts = nps.uniform(vt.min(axis=0), vt.max(axis=0), (nbig, 3))
+        Bt, Bm = _mp.getB(tet, pts), _mp.getB(msh, pts)
+        dev = np.linalg.norm(Bt - Bm, axis=1) / (np.linalg.norm(polt) + 1e-300)
+        nbad = int(np.sum(dev > 1e-6))
+        # observers within the inside test's touch band (1e-6 of the size off a face) may legitimately be decided differently
+        if nbad > max(3, nbig // 2000):
+            fails.append({"key": "representation:tetra-mesh:large-call", "desc": f"a Tetrahedron and the TriangularMesh of its hull asked at {nbig} observers in their bounding box in one call: B differs at {nbad} observers "
+                          f"(max {float(dev.max()):.2g} |J|)", "replay": {"vertices": vt.tolist(), "polarization": polt.tolist(), "observers": nbig, "differing": nbad}})
     return fails, {"c13_cases": done, "c13_worst_rel_err": {k: float(f"{v:.3g}") for k, v in kinds.items()}}
